@@ -555,7 +555,11 @@ func isolate(unit string, c any, rec recorder) *vf.Verdict {
 				rec.NonTrivial(n)
 			}
 			iso.mu.Lock()
-			iso.clean++
+			if co.Verdict != nil && strings.HasPrefix(co.Verdict.Sig, "C18/panic/") {
+				iso.crashed = true // recovered inside the handler this time; the next one may hit a library goroutine
+			} else if co.Verdict == nil {
+				iso.clean++
+			}
 			iso.mu.Unlock()
 			return co.Verdict
 		}
